@@ -475,6 +475,4 @@ SUBCHECKS = [
              required_labels=("one_point", "constant_objective", "has_minimised_objective",
                               "preference_has_zero_entry", "true_front_with_3+_points", "definition_asserted_for_core",
                               "definition_asserted_for_prob", "definition_asserted_for_transfn")),
-    SubCheck("default_trans", check_default_is_prob_variant, cases=lambda tier: [{}], shards_quick=1, shards_thorough=1,
-             rule="single structural case: the protocols' default ndset_trans is the checked sel/prob/trans.py function"),
 ]
